@@ -205,6 +205,7 @@ K_COL_DROP = "pandas-column-level-drop-invalid-rows-none-check-obj"
 K_FRAME_COERCE_FC = "frame-dtype-coercion-failure-cases-reshape"
 K_JOINT_DUPIDX = "joint-unique-failure-cases-duplicate-or-null-index-labels"
 K_MI_SCHEMA = "multiindex-schema-coerce-on-plain-index"
+K_DROP_SAMPLE = "drop-invalid-rows-shrinks-population-below-sample"
 
 
 def _fields(d):
@@ -293,7 +294,8 @@ def classify_leak(d, o):
     if polars and name == "ShapeError" and mod.startswith("polars") and any_drop(d):
         return K_PL_DROP_SHAPE
     if (name in ("ValueError", "ComputeError") and sp.get("unique")
-            and any(f.endswith(":check_column_values_are_unique") for f in fr)):
+            and not sp.get("add_missing_columns")
+            and last.endswith(":check_column_values_are_unique")):
         names = {str(c["name"]) for c in d["table"]["columns"]}
         uq = sp["unique"]
         groups = [uq] if all(isinstance(x, str) for x in uq) else uq
@@ -317,9 +319,18 @@ def classify_leak(d, o):
             and ("backends/polars/components.py:set_default" in fr
                  or "supertype" in msg or "'literal'" in msg)):
         return K_PL_DEFAULT_TYPE
-    if (polars and mod.startswith("polars") and call.get("depth") == "SCHEMA_ONLY"
-            and any_coerce(d) and last == "api/polars/container.py:validate"):
+    schema_only = call.get("depth") == "SCHEMA_ONLY" or (
+        call.get("lazyframe") and not call.get("depth"))
+    if (polars and mod.startswith("polars") and schema_only and any_coerce(d)
+            and name in ("InvalidOperationError", "ComputeError")
+            and last in ("api/polars/container.py:validate",
+                         "backends/polars/base.py:subsample")):
         return K_PL_SCHEMA_ONLY
+    if (pandas and name == "ValueError" and "larger sample than population" in msg
+            and any_drop(d) and call.get("sample")
+            and call["sample"] <= len((d["table"]["columns"] or [{"values": []}])[0]["values"])
+            and last == "backends/pandas/base.py:subsample"):
+        return K_DROP_SAMPLE
     if (pandas and name == "IndexError" and mi_columns(d)
             and last == "backends/pandas/components.py:get_regex_columns"
             and any(f.get("regex") for f in fields)):
